@@ -5,10 +5,20 @@ use flac_codec::metadata::{
     Application, Block, Cuesheet, MetadataBlock, Padding, Picture, PictureType, SeekPoint, SeekTable, Streaminfo,
     VorbisComment, read_blocks, write_blocks,
 };
+use flac_codec::metadata::contiguous::Contiguous;
+use flac_codec::metadata::cuesheet::{CDDAOffset, Digit, ISRC, Index, IndexVec, LeadOut, Track};
+use flac_codec::metadata::{BlockList, Metadata};
 use std::io::Cursor;
 
 fn hx(s: &str) -> Vec<u8> {
-    if s == "-" || s.is_empty() { vec![] } else { unhex(s) }
+    if s == "-" || s.is_empty() {
+        vec![]
+    } else if let Some(n) = s.strip_prefix('*') {
+        // `*N` = N bytes of 'A'
+        vec![0x41; n.parse().unwrap()]
+    } else {
+        unhex(s)
+    }
 }
 
 fn hxs(b: &[u8]) -> String {
@@ -85,6 +95,7 @@ pub fn parse_block(lit: &str) -> Result<Block, String> {
             let text = String::from_utf8(hx(p[2])).map_err(|_| "bad-utf8".to_string())?;
             Cuesheet::parse(p[1].parse().unwrap(), &text).map(Block::Cuesheet).map_err(|e| format!("Cuesheet({:?})", e))
         }
+        "Q" => cue_from_literal(&p).map(Block::Cuesheet),
         other => Err(format!("bad-literal {}", other)),
     }
 }
@@ -136,15 +147,7 @@ pub fn describe(b: &Block) -> String {
             p.colors_used.map(|c| c.get()).unwrap_or(0),
             hxs(&p.data)
         ),
-        Block::Cuesheet(c) => {
-            // binary form as the description (the structure has no public field access for all parts)
-            let mut w = bitstream_io::BitWriter::endian(Vec::new(), bitstream_io::BigEndian);
-            use bitstream_io::BitWrite;
-            match w.build(c) {
-                Ok(()) => format!("C:raw:{}", hxs(&w.into_writer())),
-                Err(e) => format!("C:unwritable:{}", errclass(&e)),
-            }
-        }
+        Block::Cuesheet(c) => cue_literal(c),
     }
 }
 
@@ -174,6 +177,28 @@ pub fn blocksw(f: &Fields) -> String {
         }
     }
     let sizes: Vec<String> = blocks.iter().map(size_str).collect();
+    if let Some(at) = opt_num::<usize>(f, "failat") {
+        // C13: a failing sink; success must mean every byte arrived
+        let kind = match get(f, "fkind") {
+            "once" => FaultKind::Once,
+            "intr" => FaultKind::Interrupted,
+            "short" => FaultKind::Short(1),
+            _ => FaultKind::Permanent,
+        };
+        let mut clean: Vec<u8> = Vec::new();
+        let cr = write_blocks(&mut clean, blocks.iter());
+        let sink = Shared::from_data(Vec::new());
+        sink.fail(at, kind, get(f, "fonly"));
+        let r = write_blocks(sink.clone(), blocks.iter());
+        let st = sink.0.borrow();
+        return format!(
+            "{} tripped={} complete={} clean={}",
+            match &r { Ok(()) => "ok".to_string(), Err(e) => format!("err {}", errclass(e)) },
+            st.tripped as u8,
+            (st.data == clean) as u8,
+            cr.is_ok() as u8
+        );
+    }
     let mut out: Vec<u8> = Vec::new();
     match write_blocks(&mut out, blocks.iter()) {
         Err(e) => format!("err {} stage=write sizes={}", errclass(&e), sizes.join(",")),
@@ -181,11 +206,11 @@ pub fn blocksw(f: &Fields) -> String {
             let rb = read_blocks(Cursor::new(out.clone())).collect::<Result<Vec<Block>, _>>();
             let readback = match rb {
                 Ok(v) => {
-                    if v == blocks { "equal".to_string() } else { format!("differs:{}", v.iter().map(describe).collect::<Vec<_>>().join(";")) }
+                    if v == blocks { "equal".to_string() } else { format!("differs:{}", v.iter().map(describe).collect::<Vec<_>>().join(";").chars().take(600).collect::<String>()) }
                 }
                 Err(e) => format!("ERR:{}", errclass(&e)),
             };
-            format!("ok bytes={} sizes={} readback={}", hex(&out), sizes.join(","), readback)
+            format!("ok bytes={} sizes={} readback={}", big(&out), sizes.join(","), readback)
         }
     }
 }
@@ -205,7 +230,7 @@ pub fn blocksr(f: &Fields) -> String {
             let rew = match write_blocks(&mut out, blocks.iter()) {
                 Err(e) => format!("ERR:{}", errclass(&e)),
                 Ok(()) => match read_blocks(Cursor::new(out.clone())).collect::<Result<Vec<Block>, _>>() {
-                    Ok(v) if v == blocks => format!("{}", hex(&out)),
+                    Ok(v) if v == blocks => big(&out),
                     Ok(_) => "REREAD-DIFFERS".to_string(),
                     Err(e) => format!("REREAD-ERR:{}", errclass(&e)),
                 },
@@ -213,4 +238,378 @@ pub fn blocksr(f: &Fields) -> String {
             format!("ok used={} desc={} sizes={} rewritten={}", used, desc, sizes.join(","), rew)
         }
     }
+}
+
+
+// ------------------------------------------------------------------------------------------------
+// cue sheets: structural literal
+//   Q:<cdda 0|1>:<catalog digits or ->:<lead-in>:<track,track,…or ->:<lead-out>
+//   track    = offset.number.isrc.na.pe.idx+idx+…      idx = offset/number
+//   lead-out = offset.isrc.na.pe
+//   isrc     = hex of the text handed to ISRC::from_str, or -
+// ------------------------------------------------------------------------------------------------
+fn isrc_lit(i: &ISRC) -> String {
+    match i {
+        ISRC::None => "-".to_string(),
+        ISRC::String(s) => hxs(s.as_ref().as_bytes()),
+    }
+}
+
+pub fn cue_literal(c: &Cuesheet) -> String {
+    let cat = {
+        let s = format!("{}", c.catalog_number());
+        if s.is_empty() { "-".to_string() } else { s }
+    };
+    let (tracks, lead): (Vec<String>, String) = match c {
+        Cuesheet::CDDA { tracks, lead_out, .. } => (
+            tracks
+                .iter()
+                .map(|t| {
+                    format!(
+                        "{}.{}.{}.{}.{}.{}",
+                        u64::from(t.offset),
+                        t.number.get(),
+                        isrc_lit(&t.isrc),
+                        t.non_audio as u8,
+                        t.pre_emphasis as u8,
+                        t.index_points.iter().map(|i| format!("{}/{}", u64::from(i.offset), i.number)).collect::<Vec<_>>().join("+")
+                    )
+                })
+                .collect(),
+            format!("{}.{}.{}.{}", u64::from(lead_out.offset), isrc_lit(&lead_out.isrc), lead_out.non_audio as u8, lead_out.pre_emphasis as u8),
+        ),
+        Cuesheet::NonCDDA { tracks, lead_out, .. } => (
+            tracks
+                .iter()
+                .map(|t| {
+                    format!(
+                        "{}.{}.{}.{}.{}.{}",
+                        t.offset,
+                        t.number.get(),
+                        isrc_lit(&t.isrc),
+                        t.non_audio as u8,
+                        t.pre_emphasis as u8,
+                        t.index_points.iter().map(|i| format!("{}/{}", i.offset, i.number)).collect::<Vec<_>>().join("+")
+                    )
+                })
+                .collect(),
+            format!("{}.{}.{}.{}", lead_out.offset, isrc_lit(&lead_out.isrc), lead_out.non_audio as u8, lead_out.pre_emphasis as u8),
+        ),
+    };
+    format!(
+        "Q:{}:{}:{}:{}:{}",
+        c.is_cdda() as u8,
+        cat,
+        c.lead_in_samples().unwrap_or(0),
+        if tracks.is_empty() { "-".to_string() } else { tracks.join(",") },
+        lead
+    )
+}
+
+fn isrc_from(s: &str) -> Result<ISRC, String> {
+    if s == "-" {
+        Ok(ISRC::None)
+    } else {
+        let t = String::from_utf8(unhex(s)).map_err(|_| "bad-utf8".to_string())?;
+        t.parse::<ISRC>().map_err(|_| "bad-isrc".to_string())
+    }
+}
+
+fn cue_from_literal(p: &[&str]) -> Result<Cuesheet, String> {
+    let cdda = p[1] == "1";
+    let digits: Vec<Digit> = if p[2] == "-" { vec![] } else { p[2].bytes().map(|b| Digit::try_from(b).map_err(|_| "bad-digit".to_string())).collect::<Result<_, _>>()? };
+    let lead_in: u64 = p[3].parse().unwrap();
+    let tl: Vec<&str> = if p[4] == "-" { vec![] } else { p[4].split(',').collect() };
+    let lo: Vec<&str> = p[5].split('.').collect();
+    let b = |s: &str| s == "1";
+    let n = |s: &str| s.parse::<u64>().unwrap();
+    if cdda {
+        let off = |x: u64| CDDAOffset::try_from(x).map_err(|_| "bad-cdda-offset".to_string());
+        let mut tracks = Vec::new();
+        for t in tl {
+            let q: Vec<&str> = t.split('.').collect();
+            let mut idx = Vec::new();
+            for i in q[5].split('+').filter(|s| !s.is_empty() && *s != "-") {
+                let (o, k) = i.split_once('/').unwrap();
+                idx.push(Index { offset: off(n(o))?, number: k.parse::<u8>().map_err(|_| "index-number-range".to_string())? });
+            }
+            let cont: Contiguous<100, Index<CDDAOffset>> = idx.try_into().map_err(|_| "noncontiguous-index".to_string())?;
+            tracks.push(Track {
+                offset: off(n(q[0]))?,
+                number: u8::try_from(n(q[1])).ok().and_then(std::num::NonZero::new).ok_or("track-number-range")?,
+                isrc: isrc_from(q[2])?,
+                non_audio: b(q[3]),
+                pre_emphasis: b(q[4]),
+                index_points: IndexVec::try_from(cont).map_err(|_| "bad-indexvec".to_string())?,
+            });
+        }
+        Ok(Cuesheet::CDDA {
+            catalog_number: if digits.is_empty() { None } else { Some(digits.try_into().map_err(|_| "bad-catalog".to_string())?) },
+            lead_in_samples: lead_in,
+            tracks: tracks.try_into().map_err(|_| "noncontiguous-tracks".to_string())?,
+            lead_out: Track { offset: off(n(lo[0]))?, number: LeadOut, isrc: isrc_from(lo[1])?, non_audio: b(lo[2]), pre_emphasis: b(lo[3]), index_points: () },
+        })
+    } else {
+        let mut tracks = Vec::new();
+        for t in tl {
+            let q: Vec<&str> = t.split('.').collect();
+            let mut idx = Vec::new();
+            for i in q[5].split('+').filter(|s| !s.is_empty() && *s != "-") {
+                let (o, k) = i.split_once('/').unwrap();
+                idx.push(Index { offset: n(o), number: k.parse::<u8>().map_err(|_| "index-number-range".to_string())? });
+            }
+            let cont: Contiguous<{ NONCDDA_INDEX_MAX }, Index<u64>> = idx.try_into().map_err(|_| "noncontiguous-index".to_string())?;
+            tracks.push(Track {
+                offset: n(q[0]),
+                number: u8::try_from(n(q[1])).ok().and_then(std::num::NonZero::new).ok_or("track-number-range")?,
+                isrc: isrc_from(q[2])?,
+                non_audio: b(q[3]),
+                pre_emphasis: b(q[4]),
+                index_points: IndexVec::try_from(cont).map_err(|_| "bad-indexvec".to_string())?,
+            });
+        }
+        Ok(Cuesheet::NonCDDA {
+            catalog_number: digits,
+            tracks: tracks.try_into().map_err(|_| "noncontiguous-tracks".to_string())?,
+            lead_out: Track { offset: n(lo[0]), number: LeadOut, isrc: isrc_from(lo[1])?, non_audio: b(lo[2]), pre_emphasis: b(lo[3]), index_points: () },
+        })
+    }
+}
+
+/// the index-point capacity of a non-CD-DA track, read off the crate's own type alias
+const NONCDDA_INDEX_MAX: usize = noncdda_index_max();
+const fn noncdda_index_max() -> usize {
+    trait Cap {
+        const MAX: usize;
+    }
+    impl<const M: usize, O: flac_codec::metadata::contiguous::Adjacent, N> Cap for Track<O, N, IndexVec<M, O>> {
+        const MAX: usize = M;
+    }
+    <flac_codec::metadata::cuesheet::TrackNonCDDA as Cap>::MAX
+}
+
+/// cue sheet text import (C20, C12): parse, describe, ranges, export, re-import
+pub fn cuetext(f: &Fields) -> String {
+    let total: u64 = num(f, "total", 0);
+    let text = match String::from_utf8(unhex(get(f, "text"))) {
+        Ok(t) => t,
+        Err(_) => return "err Construct:bad-utf8 stage=construct".to_string(),
+    };
+    match Cuesheet::parse(total, &text) {
+        Err(e) => format!("err Cuesheet({:?})", e),
+        Ok(c) => {
+            let ranges: Vec<String> = c.track_sample_ranges().map(|r| format!("{}-{}", r.start, r.end)).collect();
+            let disp = format!("{}", c.display("x.flac"));
+            let re = match Cuesheet::parse(total, &disp) {
+                Ok(c2) => {
+                    if layout(&c2) == layout(&c) { "same".to_string() } else { format!("differs:{}", cue_literal(&c2)) }
+                }
+                Err(e) => format!("ERR:{:?}", e),
+            };
+            let sizes = size_str(&Block::Cuesheet(c.clone()));
+            format!("ok cue={} ranges={} display={} reimport={} sizes={}", cue_literal(&c), if ranges.is_empty() { "-".to_string() } else { ranges.join(",") }, hex(disp.as_bytes()), re, sizes)
+        }
+    }
+}
+
+/// tracks, index numbers and absolute index positions
+fn layout(c: &Cuesheet) -> Vec<(Option<u8>, u64, Vec<(u8, u64)>)> {
+    c.tracks().map(|t| (t.number, t.offset, t.index_points.iter().map(|i| (i.number, i.offset.wrapping_add(t.offset))).collect())).collect()
+}
+
+/// every accessor on a parsed block list (C12)
+pub fn accessors(f: &Fields) -> String {
+    let data = unhex(get(f, "bytes"));
+    match BlockList::read(Cursor::new(data)) {
+        Err(e) => format!("err {}", errclass(&e)),
+        Ok(bl) => {
+            let mut out = Vec::new();
+            out.push(format!("dur={}", bl.duration().map(|d| format!("{}.{:09}", d.as_secs(), d.subsec_nanos())).unwrap_or("none".to_string())));
+            out.push(format!("declen={}", bl.decoded_len().map(|d| d.to_string()).unwrap_or("none".to_string())));
+            out.push(format!("mask={}", u32::from(bl.channel_mask())));
+            out.push(format!("maskch={}", bl.channel_mask().channels().count()));
+            let si = bl.streaminfo().clone();
+            out.push(format!("sidur={}", si.duration().map(|d| format!("{}.{:09}", d.as_secs(), d.subsec_nanos())).unwrap_or("none".to_string())));
+            out.push(format!("sideclen={}", si.decoded_len().map(|d| d.to_string()).unwrap_or("none".to_string())));
+            out.push(format!("simask={}", u32::from(si.channel_mask())));
+            let mut cues = Vec::new();
+            for c in bl.get_all::<Cuesheet>() {
+                let ranges: Vec<String> = c.track_sample_ranges().map(|r| format!("{}-{}", r.start, r.end)).collect();
+                let branges: Vec<String> = c.track_byte_ranges(bl.channel_count(), bl.bits_per_sample()).map(|r| format!("{}-{}", r.start, r.end)).collect();
+                let disp = format!("{}", c.display("f"));
+                let ntr = c.tracks().count();
+                cues.push(format!("{}|{}|{}|{}|{}|{}", c.track_count(), ntr, if ranges.is_empty() { "-".to_string() } else { ranges.join(",") }, if branges.is_empty() { "-".to_string() } else { branges.join(",") }, hex(disp.as_bytes()), c.catalog_number()));
+            }
+            out.push(format!("cues={}", if cues.is_empty() { "-".to_string() } else { cues.join("~") }));
+            if let Some(v) = bl.get::<VorbisComment>() {
+                let n = v.fields.len();
+                let g = v.get("TITLE").map(|s| s.len()).unwrap_or(0);
+                let a = v.all("ARTIST").count();
+                out.push(format!("vc={}/{}/{}", n, g, a));
+            }
+            format!("ok {}", out.join(" "))
+        }
+    }
+}
+
+/// picture sniffing (C12)
+pub fn picture(f: &Fields) -> String {
+    let data = unhex(get(f, "data"));
+    match Picture::new(PictureType::FrontCover, "d", data) {
+        Err(e) => {
+            use flac_codec::metadata::InvalidPicture::*;
+            let c = match e {
+                Io(_) => "Io",
+                Unsupported => "Unsupported",
+                Png(_) => "Png",
+                Jpeg(_) => "Jpeg",
+                Gif(_) => "Gif",
+                _ => "Other",
+            };
+            format!("err {}", c)
+        }
+        Ok(p) => format!("ok mime={} w={} h={} depth={} colors={}", p.media_type, p.width, p.height, p.color_depth, p.colors_used.map(|c| c.get()).unwrap_or(0)),
+    }
+}
+
+// ------------------------------------------------------------------------------------------------
+// update_file (C10, C13)
+// ------------------------------------------------------------------------------------------------
+fn big(b: &[u8]) -> String {
+    if b.len() <= 6000 {
+        hxs(b)
+    } else {
+        // FNV-1a 64 over the bytes, with the length
+        let mut h: u64 = 0xcbf29ce484222325;
+        for x in b {
+            h ^= *x as u64;
+            h = h.wrapping_mul(0x100000001b3);
+        }
+        format!("#{}:{:016x}", b.len(), h)
+    }
+}
+
+fn apply_script(bl: &mut BlockList, script: &str) -> Result<(), flac_codec::Error> {
+    for op in script.split(',').filter(|s| !s.is_empty()) {
+        let p: Vec<&str> = op.split(':').collect();
+        match p[0] {
+            "vset" => {
+                let fields = if p.len() < 2 || p[1] == "-" { vec![] } else { p[1].split('+').map(|f| String::from_utf8(unhex(f)).unwrap()).collect() };
+                bl.insert(VorbisComment { vendor_string: "v".to_string(), fields });
+            }
+            "vrm" => bl.remove::<VorbisComment>(),
+            "app" => {
+                bl.remove::<Application>();
+                bl.insert(Application { id: u32::from_str_radix(p[1], 16).unwrap(), data: vec![0x5A; p[2].parse().unwrap()] });
+            }
+            "apprm" => bl.remove::<Application>(),
+            "pic" => {
+                bl.insert(Picture {
+                    picture_type: picture_type(p[1].parse().unwrap()).unwrap(),
+                    media_type: "image/png".to_string(),
+                    description: String::new(),
+                    width: 1,
+                    height: 1,
+                    color_depth: 24,
+                    colors_used: None,
+                    data: vec![0x77; p[2].parse().unwrap()],
+                });
+            }
+            "picrm" => bl.remove::<Picture>(),
+            "padset" => {
+                if let Some(pd) = bl.get_mut::<Padding>() {
+                    pd.size = p[1].parse::<u32>().unwrap().try_into().unwrap();
+                }
+            }
+            "padadd" => {
+                bl.insert(Padding { size: p[1].parse::<u32>().unwrap().try_into().unwrap() });
+            }
+            "padrm" => bl.remove::<Padding>(),
+            "rate" => bl.streaminfo_mut().sample_rate = p[1].parse().unwrap(),
+            "fail" => return Err(flac_codec::Error::InvalidSampleRate),
+            _ => panic!("harness: bad edit op {}", op),
+        }
+    }
+    Ok(())
+}
+
+struct UpdateRun {
+    steps: Vec<String>,
+    lens: Vec<usize>,
+    file: Vec<u8>,
+    tripped: bool,
+    calls: usize,
+}
+
+fn update_run(f: &Fields, inject: bool) -> UpdateRun {
+    let mut file = unhex(get(f, "file"));
+    let scripts: Vec<&str> = get(f, "edits").split('|').collect();
+    let failat: Option<usize> = if inject { opt_num(f, "failat") } else { None };
+    let fstep: usize = num(f, "fstep", 0);
+    let kind = match get(f, "fkind") {
+        "once" => FaultKind::Once,
+        "intr" => FaultKind::Interrupted,
+        "short" => FaultKind::Short(1),
+        _ => FaultKind::Permanent,
+    };
+    let mut run = UpdateRun { steps: vec![], lens: vec![file.len()], file: vec![], tripped: false, calls: 0 };
+    for (i, sc) in scripts.iter().enumerate() {
+        let orig = Shared::from_data(file.clone());
+        let reb = Shared::from_data(Vec::new());
+        if let Some(at) = failat {
+            if i == fstep {
+                let only = get(f, "fonly");
+                if get(f, "ftarget") == "rebuilt" { reb.fail(at, kind, only) } else { orig.fail(at, kind, only) }
+            }
+        }
+        let reb2 = reb.clone();
+        let mut opened = false;
+        let r = flac_codec::metadata::update_file(
+            orig.clone(),
+            || {
+                opened = true;
+                Ok(reb2.clone())
+            },
+            |bl| apply_script(bl, sc),
+        );
+        run.tripped |= orig.0.borrow().tripped || reb.0.borrow().tripped;
+        run.calls += orig.0.borrow().ncalls + reb.0.borrow().ncalls;
+        match r {
+            Ok(false) => {
+                run.steps.push("inplace".to_string());
+                file = orig.data();
+            }
+            Ok(true) => {
+                run.steps.push("rebuilt".to_string());
+                file = reb.data();
+            }
+            Err(e) => {
+                run.steps.push(format!("ERR:{}", errclass(&e)));
+                // what is on "disk" after a failure: the rebuilt file if it was opened, else the original
+                file = if opened { reb.data() } else { orig.data() };
+            }
+        }
+        run.lens.push(file.len());
+    }
+    run.file = file;
+    run
+}
+
+/// `update file=HEX edits=s1|s2|…  [failat=N fkind=perm|once|intr|short fonly=wfsr fstep=K ftarget=orig|rebuilt]`
+pub fn update(f: &Fields) -> String {
+    let run = update_run(f, true);
+    let mut out = format!(
+        "ok steps={} lens={} final={} tripped={} calls={}",
+        run.steps.join(","),
+        join(run.lens.iter()),
+        big(&run.file),
+        run.tripped as u8,
+        run.calls
+    );
+    if f.contains_key("failat") {
+        // the same history without the fault: what a complete result looks like
+        let clean = update_run(f, false);
+        out.push_str(&format!(" complete={} cleansteps={}", (clean.file == run.file) as u8, clean.steps.join(",")));
+    }
+    out
 }
